@@ -154,6 +154,18 @@ impl Write for DBFile {
     }
 
     fn write(&mut self, buf: &[u8]) -> io::Result<usize> {
+        #[cfg(feature = "verif")]
+        {
+            let offset = self.f.stream_position()?;
+            let n = self.f.write(buf)?;
+            crate::verif::io_event(crate::verif::IoEvent::Write {
+                path: self.p.clone(),
+                offset,
+                bytes: buf[..n].to_vec(),
+            });
+            return Ok(n);
+        }
+        #[cfg(not(feature = "verif"))]
         self.f.write(buf)
     }
 }
@@ -180,6 +192,11 @@ impl FileOperations for DBFile {
             .bypass_cache(true) // This is basically O_DIRECT. Forces the writes directly to SSD instead of being buffered by the OS cache
             .sync_on_write(false) // This is O_DSYNC (not used for now)
             .open(&path)?;
+
+        #[cfg(feature = "verif")]
+        crate::verif::io_event(crate::verif::IoEvent::Create {
+            path: path.as_ref().to_path_buf(),
+        });
 
         Ok(Self {
             f,
@@ -208,11 +225,20 @@ impl FileOperations for DBFile {
 
     // truncate the file to 0 len
     fn truncate(&mut self) -> io::Result<()> {
+        #[cfg(feature = "verif")]
+        crate::verif::io_event(crate::verif::IoEvent::SetLen {
+            path: self.p.clone(),
+            len: 0,
+        });
         self.f.set_len(0)
     }
 
     // sync the file to disk
     fn sync_all(&self) -> io::Result<()> {
+        #[cfg(feature = "verif")]
+        crate::verif::io_event(crate::verif::IoEvent::Sync {
+            path: self.p.clone(),
+        });
         File::sync_all(&self.f)
     }
 }
